@@ -546,6 +546,19 @@ impl<'src> Walker<'src>
 		{
             let c = self.char_at(byte_index);
 
+            // A comment is not part of the instruction: its characters
+            // neither count as tokens seen so far nor can they be
+            // the lookahead character
+            if c == ';'
+            {
+                let token = self.token_at(byte_index);
+                if token.kind == syntax::TokenKind::Comment
+                {
+                    byte_index = self.get_index_at_span_end(token.span);
+                    continue;
+                }
+            }
+
             if c.eq_ignore_ascii_case(&wanted_char) &&
                 seen_tokens &&
                 paren_nesting == 0 &&
